@@ -391,7 +391,9 @@ def judge(rep, findings, run, trace, verdict, counters):
     badl, clause, fin, cls = verdict
     counters["cls"][cls] = counters["cls"].get(cls, 0) + 1
     if fin == "NotDriven":
-        raise tlc.MachineryError(f"a trace was not driven to an end or an error: {run}")
+        if clause == "ok":
+            raise tlc.MachineryError(f"a trace was not driven to an end or an error: {run}")
+        fin = "ok"                       # the driver gave up after a violating event (e.g. endless empty pieces)
     if clause == "ok" and fin == "ok":
         return cls
     facts = signature(run, trace, badl, clause, fin)
@@ -540,10 +542,6 @@ def runs_from_groups(groups, variants, seed):
                          "expect": {"keys": keys, "scale": scale, "exact": exact} if comparable else None, "model": [fr, co, st, de, list(enc), list(ch), dk, at]})
     rng.shuffle(runs)
     return runs, skipped
-
-
-def class_of(facts_cls):
-    return facts_cls
 
 
 # ---------------------------------------------------------------------------------------------- driving everything
